@@ -298,8 +298,8 @@ fn le32(v: &mut Vec<u8>, x: u32) {
     v.extend_from_slice(&x.to_le_bytes());
 }
 
-/// an index with one unit (row 1, id `id`) and the given columns; contribution j = (3 + 2j, 5 + j)
-fn mk_index(v2: bool, cols: &[u32], id: u64, slots: u32) -> Vec<u8> {
+/// an index with one unit (row 1, id `id`) and the given columns; contribution j = (base + 2j, base + 2 + j)
+fn mk_index_at(v2: bool, cols: &[u32], id: u64, slots: u32, base: u32) -> Vec<u8> {
     let mut v = Vec::new();
     if v2 {
         le32(&mut v, 2);
@@ -321,12 +321,15 @@ fn mk_index(v2: bool, cols: &[u32], id: u64, slots: u32) -> Vec<u8> {
         le32(&mut v, *c);
     }
     for j in 0..cols.len() as u32 {
-        le32(&mut v, 3 + 2 * j);
+        le32(&mut v, base + 2 * j);
     }
     for j in 0..cols.len() as u32 {
-        le32(&mut v, 5 + j);
+        le32(&mut v, base + 2 + j);
     }
     v
+}
+fn mk_index(v2: bool, cols: &[u32], id: u64, slots: u32) -> Vec<u8> {
+    mk_index_at(v2, cols, id, slots, 3)
 }
 
 fn package_unit(v2: bool, mask: u32) -> Result<(), String> {
@@ -358,7 +361,8 @@ fn package_unit(v2: bool, mask: u32) -> Result<(), String> {
     let cu_id = 0x1234_5678_9abc_def1u64;
     let tu_id = 0x0fed_cba9_8765_4322u64;
     let cu_index = mk_index(v2, &cols, cu_id, 4);
-    let tu_index = mk_index(v2, &cols, tu_id, 8);
+    // the two indexes give the same row number different contributions
+    let tu_index = mk_index_at(v2, &cols, tu_id, 8, 4);
     let dm = Markers::new(b'D');
     let pm = Markers::new(b'P');
     let sm = Markers::new(b'S');
@@ -386,16 +390,18 @@ fn package_unit(v2: bool, mask: u32) -> Result<(), String> {
     let cu = dwp.find_cu(DwoId(cu_id), &parent);
     let tu = dwp.find_tu(DebugTypeSignature(tu_id), &parent);
     let by_row = dwp.cu_sections(1, &parent).map(Some);
-    for (what, res) in [("find_cu", cu), ("find_tu", tu), ("cu_sections", by_row)] {
+    let tu_by_row = dwp.tu_sections(1, &parent).map(Some);
+    for (what, res) in [("find_cu", cu), ("find_tu", tu), ("cu_sections", by_row), ("tu_sections", tu_by_row)] {
         let d: Dwarf<R> = match res {
             Ok(Some(d)) => d,
             Ok(None) => return Err(format!("wiring-mismatch {} not found", what)),
             Err(e) => return Err(format!("wiring-mismatch {} {}", what, errname(&e))),
         };
-        // contribution of a kind: (3+2j, 5+j) when it is column j, else (0, 0)
+        // contribution of a kind: (base+2j, base+2+j) when it is column j, else (0, 0); base 3 in the CU index, 4 in the TU index
+        let base: usize = if what == "find_tu" || what == "tu_sections" { 4 } else { 3 };
         let want = |k: IndexSectionId, sid: SectionId| -> &[u8] {
             match chosen.iter().position(|c| c.1 == k) {
-                Some(j) => &dm.get(sid)[3 + 2 * j..3 + 2 * j + 5 + j],
+                Some(j) => &dm.get(sid)[base + 2 * j..base + 2 * j + base + 2 + j],
                 None => &dm.get(sid)[..0],
             }
         };
